@@ -213,7 +213,7 @@ func c20Run(c *ev.Ctx, sc *c20Scenario, states *sync.Map) func() (func(*vsched.S
 				compare(s, tally, "after the held requests completed")
 			} else if !sc.Concurrent {
 				for i, rq := range sc.Reqs {
-					r := vhttp.Do(fmt.Sprintf("c%d", i), proverAddr, rq.Method, "/prove", []byte(rq.Body))
+					r := vhttp.Do(fmt.Sprintf("c%d", i), proverAddr, rq.Method, "/prove", rq.Bytes())
 					if r.Outcome != "complete" {
 						bad("request %d got no response (%s)", i, r.Outcome)
 						break
@@ -234,7 +234,7 @@ func c20Run(c *ev.Ctx, sc *c20Scenario, states *sync.Map) func() (func(*vsched.S
 				for i := range sc.Reqs {
 					i := i
 					vsched.GoNamed(fmt.Sprintf("client%d", i), func() {
-						results[i] = vhttp.Do(fmt.Sprintf("c%d", i), proverAddr, sc.Reqs[i].Method, "/prove", []byte(sc.Reqs[i].Body))
+						results[i] = vhttp.Do(fmt.Sprintf("c%d", i), proverAddr, sc.Reqs[i].Method, "/prove", sc.Reqs[i].Bytes())
 						done.Send(i)
 					})
 				}
@@ -303,11 +303,20 @@ func c20Body(c *ev.Ctx) {
 	for _, mode := range modes {
 		L := c13Letters(mode)
 		letters := []httpReq{L["GET"], {"HEAD", "", "HEAD"}, {"PUT", "x", "PUT"}, L["valid1"], L["unsat"], {"POST", "not json", "notjson"}}
+		// body-size classes: just above 1, 8 and 32 MiB (sizes at which limits, buffers and spill-to-disk
+		// thresholds are commonly placed); whatever is answered must be counted like any other response
+		big := []httpReq{{"POST", "@repeat:1048577:x", "POST 1 MiB+1 not-JSON"}, {"POST", "@repeat:9437184:x", "POST 9 MiB not-JSON"}, {"PUT", "@repeat:9437184:x", "PUT 9 MiB"}, {"POST", "@repeat:34603008:x", "POST 33 MiB not-JSON"}}
+		if !quick {
+			big = append(big, httpReq{"POST", "@repeat:5242880:x", "POST 5 MiB"}, httpReq{"POST", "@repeat:17825792:x", "POST 17 MiB"}, httpReq{"POST", "@repeat:68157440:x", "POST 65 MiB"}, httpReq{"GET", "@repeat:9437184:x", "GET with a 9 MiB body"})
+		}
 		maxL := 2
 		if !quick {
 			maxL = 3
 		}
 		var seqs [][]httpReq
+		for _, bq := range big {
+			seqs = append(seqs, []httpReq{bq}, []httpReq{letters[3], bq, letters[0]})
+		}
 		var rec func(cur []httpReq)
 		rec = func(cur []httpReq) {
 			if len(cur) > 0 {
